@@ -38,6 +38,7 @@ REPLACERS = {"os.replace", "os.rename"}
 # a hard link onto the entry name is atomic too (the entry is complete or absent); that it cannot
 # displace an existing entry is C14's business (C14-OVERWRITE), not a crash-safety matter
 ATOMIC_PUBLISH = REPLACERS | {"os.link"}
+COPIERS = {"shutil.copyfile", "shutil.copy", "shutil.copy2", "shutil.copyfileobj", "shutil.move", "copyfile", "copy2"}
 TEMPFILE_CTORS = {"tempfile.NamedTemporaryFile", "NamedTemporaryFile", "tempfile.mkstemp",
                   "mkstemp", "tempfile.TemporaryFile"}
 
@@ -77,6 +78,9 @@ def _is_write_open(call):
         return False
     if isinstance(call.func, ast.Attribute) and call.func.attr in ("write_bytes", "write_text"):
         return True
+    # (seed C15_12) copying routines open their destination for writing in place
+    if d in COPIERS and len(call.args) >= 2:
+        return True
     return False
 
 
@@ -84,6 +88,8 @@ def _opened_path(call):
     d = dotted(call.func)
     if d in TEMPFILE_CTORS:
         return call
+    if d in COPIERS:
+        return call.args[1]
     if d in ("open", "io.open"):
         return call.args[0] if call.args else None
     if isinstance(call.func, ast.Attribute):
